@@ -16,6 +16,8 @@ sequence number and a virtual time):
   untimed_once        per real change: every untimed registration for the new state invoked exactly once,
                       synchronously inside that report; nothing for the other state
   duplicate_silent    a duplicate report invokes no handler
+  muted_silent        a change of a muted switch (Switch.mute) invokes no untimed handler / posts no event, but it
+                      ends pending hold intervals like any change (timed_fire)
   timed_fire          per (handler, deadline): fired exactly as often as registrations that saw the whole hold
                       interval (held, not removed, added before the deadline), at change+ms, never otherwise
   removed_silent      every invocation happens while a registration of that callback is live
@@ -50,7 +52,13 @@ RULE = ("case = one booted machine (2-5 generated NO/NC switches, tags, events_w
         "oracles were all evaluated at least once in the case")
 ASSUMPTIONS = [
     "reports carry no explicit timestamp (the platform default: the clock's current time)",
-    "switches are not muted (no ball search) and no other device is attached to the generated switches",
+    "no other device is attached to the generated switches; switches are muted/un-muted only through the public "
+    "Switch.mute(source)/unmute(source) API (two sources), never the ignore-window switch",
+    "a real change of a MUTED switch still updates the state (state_mirror applies) and ends every pending hold "
+    "interval (nothing armed for the old state may fire), but invokes no untimed handler and posts no event "
+    "(docstring of Switch.mute; clause muted_silent); for the state ENTERED while muted the statement is silent: "
+    "hold-time handlers may fire 0 or 1 times at change+ms if nothing else forbids it; a hold armed by an un-muted "
+    "change must still fire if the switch stays in the state, whatever the mute status at the deadline",
     "exact coincidences (a change, an add or a remove within 1 us of a deadline; a deadline at the end of the "
     "observation) accept either outcome for that (registration, interval); everything generated is on a 0.5 ms grid "
     "so nothing else is within 1 us",
@@ -156,6 +164,7 @@ class _Sim:
         self.sw = switches
         self.cbs = {}
         self.next_cb = 0
+        self.mut = [set() for _ in switches]
 
 
 def _gen_report(rng, sim, prefer=None):
@@ -204,6 +213,59 @@ def _gen_twin(rng, sim, cb):
     g["twin"] = new
     return {"k": "add", "cb": new, "sw": g["sw"], "st": g["st"] ^ 1, "ms": g["ms"], "ri": g["ri"], "kw": False,
             "via": rng.choice(["name", "obj", "dev"]), "act": None, "twin_of": cb}
+
+
+def _gen_mute_motif(rng, sim):
+    """un-muted change into X (hold handlers armed), mute INSIDE the hold interval, leave X while muted, go past
+    the deadline (optionally un-muted again): nothing armed for X may fire."""
+    cands = [c for c, g in sim.cbs.items() if g["ms"] >= 50 and not sim.sw[g["sw"]]["iw"]]
+    tev = [(i, st, ms) for i, sw in enumerate(sim.sw) if not sw["iw"]
+           for st, lst in ((1, sw["on_t"]), (0, sw["off_t"])) for ms in lst if ms >= 50]
+    if not cands and not tev:
+        return []
+    if cands and (not tev or rng.random() < 0.6):
+        g = sim.cbs[rng.choice(cands)]
+        i, st, ms = g["sw"], g["st"], g["ms"]
+    else:
+        i, st, ms = rng.choice(tev)
+    nc = 1 if sim.sw[i]["nc"] else 0
+    out = [{"k": "unmute", "sw": i, "src": src} for src in sorted(sim.mut[i])]
+    sim.mut[i].clear()
+
+    def report(new):
+        lg = rng.random() < 0.4
+        sim.st[i], sim.lc[i] = new, sim.t
+        return {"k": "rep", "sw": i, "v": new if lg else new ^ nc, "lg": lg, "via": rng.choice(["name", "num", "obj"])}
+    if sim.st[i] == st:
+        out.append(report(st ^ 1))
+    out.append(report(st))
+    dt = rng.choice([0.0, 0.001, round(ms / 2000.0, 3)])
+    out.append({"k": "adv", "dt": dt})
+    sim.t += dt
+    src = rng.choice(["a", "b"])
+    out.append({"k": "mute", "sw": i, "src": src})
+    sim.mut[i].add(src)
+    if rng.random() < 0.5:
+        dt = rng.choice([0.0, 0.001, round(ms / 4000.0, 3)])
+        out.append({"k": "adv", "dt": dt})
+        sim.t += dt
+    lc = sim.lc[i]
+    out.append(report(st ^ 1))
+    if rng.random() < 0.3:
+        out.append(report(st))          # ... and back, still muted
+        lc = None
+    if rng.random() < 0.5:
+        out.append({"k": "unmute", "sw": i, "src": src})
+        sim.mut[i].discard(src)
+    if lc is not None:
+        # aim just past the deadline of the hold that was ended while muted
+        dt = max(0.0, round(lc + ms / 1000.0 + 0.001 - sim.t, 4))
+        out.append({"k": "adv", "dt": dt})
+        sim.t += dt
+    else:
+        out.append({"k": "advd", "at": {"sw": i, "ms": ms, "off": 0.001}})
+        sim.t = sim.lc[i] + ms / 1000.0 + 0.001
+    return out
 
 
 def _gen_twin_motif(rng, sim):
@@ -280,6 +342,7 @@ def gen_case(rng, tier, index):
     sim = _Sim(switches)
     n_ops = rng.randint(20, 120) if tier == "quick" else rng.randint(20, 200)
     ops = []
+    mute_case = rng.random() < 0.4          # switches are muted/un-muted through Switch.mute()/unmute() in these
     for _ in range(rng.randint(2, 8)):      # prologue: handlers that are present for the whole timeline
         ops.append(_gen_add(rng, sim, untimed=rng.random() < 0.5))
     while len(ops) < n_ops:
@@ -290,6 +353,23 @@ def gen_case(rng, tier, index):
                 and sim.cbs[last["cb"]].get("twin") is None and rng.random() < 0.25:
             ops.append(_gen_twin(rng, sim, last["cb"]))
             continue
+        if mute_case and rng.random() < 0.07:
+            i = rng.randrange(len(switches))
+            if not switches[i]["iw"]:
+                src = rng.choice(["a", "a", "b"])
+                if src in sim.mut[i] or (sim.mut[i] and rng.random() < 0.6):
+                    src = rng.choice(sorted(sim.mut[i]))
+                    sim.mut[i].discard(src)
+                    ops.append({"k": "unmute", "sw": i, "src": src})
+                else:
+                    sim.mut[i].add(src)
+                    ops.append({"k": "mute", "sw": i, "src": src})
+                continue
+        if mute_case and rng.random() < 0.04:
+            motif = _gen_mute_motif(rng, sim)
+            if motif:
+                ops.extend(motif)
+                continue
         if r > 0.95:
             motif = _gen_twin_motif(rng, sim)
             if motif:
@@ -377,17 +457,18 @@ class _Rt:
         self.crash = None
         self.harness_exc = None
         self.viol = []
-        self.cl = {"state_mirror": 0, "hw_state": 0, "untimed_once": 0, "duplicate_silent": 0, "timed_fire": 0,
+        self.cl = {"state_mirror": 0, "hw_state": 0, "untimed_once": 0, "duplicate_silent": 0, "muted_silent": 0, "timed_fire": 0,
                    "removed_silent": 0, "events_once": 0, "recycle_events": 0, "no_crash": 0, "cb_args": 0}
         self.obs = {"reports": 0, "real_changes": 0, "duplicate_reports": 0, "raw_reports": 0, "nc_reports": 0,
                     "adds": 0, "adds_timed_in_state": 0, "removes": 0, "removes_of_pending": 0,
-                    "ops_in_callbacks": 0, "twin_registrations": 0, "twin_removed_while_other_pending": 0, "ops_in_event_handlers": 0, "ops_scheduled": 0, "fires_untimed": 0, "fires_timed": 0,
+                    "ops_in_callbacks": 0, "mute_ops": 0, "changes_while_muted": 0, "muted_change_ends_pending_hold": 0, "twin_registrations": 0, "twin_removed_while_other_pending": 0, "ops_in_event_handlers": 0, "ops_scheduled": 0, "fires_untimed": 0, "fires_timed": 0,
                     "events_seen": 0, "timers_scheduled_in_the_past": 0, "timed_must_fire": 0, "timed_must_not_fire": 0, "timed_either": 0,
                     "timed_mid_interval_adds_decided": 0, "advances": 0}
         self.tr = []
         self.inner_budget = 25
         self.eacts = dict(case.get("eacts") or {})
         self.changed_once = [False] * self.n
+        self.muted = [set() for _ in range(self.n)]
         self.done = False
 
     # -- helpers ------------------------------------------------------------------------
@@ -609,6 +690,30 @@ class _Rt:
                 self.register(g, "obj", where)
         elif k == "rm":
             self.do_rm(op, where)
+        elif k in ("mute", "unmute"):
+            self.do_mute(op, where)
+
+    def do_mute(self, op, where):
+        i = op["sw"]
+        if i >= self.n or self.swcfg[i]["iw"]:
+            return          # the recycle rule of an ignore-window switch under mute is not modelled: never muted
+        src = str(op.get("src", "a"))
+        self.nq()
+        try:
+            if op["k"] == "mute":
+                self.muted[i].add(src)
+                self.sw[i].mute(src)
+            else:
+                self.muted[i].discard(src)
+                self.sw[i].unmute(src)
+        except Exception as e:      # noqa
+            self.record_crash(e, "mute/" + where)
+        self.obs["mute_ops"] += 1
+        self.log("%s s%d source=%s -> %s (%s)" % (op["k"].upper(), i, src,
+                                                  "MUTED" if self.muted[i] else "not muted", where))
+        if self.crash is None and bool(self.sw[i].is_muted) != bool(self.muted[i]):
+            self.add_viol("state_mirror", "C03:is_muted_differs_from_mute_calls",
+                          {"switch": "s%d" % i, "sources": sorted(self.muted[i]), "is_muted": self.sw[i].is_muted})
 
     def do_report(self, op, where):
         i = op["sw"]
@@ -622,21 +727,30 @@ class _Rt:
         real = self.mstate[i] != new
         rid = len(self.reports)
         rec = {"rid": rid, "sw": i, "new": new, "real": real, "t": self.now(), "qs": self.nq(), "qe": None,
-               "v": v, "lg": lg, "via": op.get("via"), "where": where}
+               "v": v, "lg": lg, "via": op.get("via"), "where": where, "muted": bool(self.muted[i])}
         self.reports.append(rec)
         self.last_rep[i] = {"v": v, "lg": lg, "via": op.get("via"), "t": rec["t"]}
         self.obs["reports"] += 1
         self.obs["raw_reports"] += 0 if lg else 1
         self.obs["nc_reports"] += nc
         if real:
+            if rec["muted"]:
+                self.obs["changes_while_muted"] += 1
+                for g in self.groups.values():
+                    if g.sw == i and g.ms and g.st != new and self.changes[i] and not self.changes[i][-1]["muted"] \
+                            and any(x["qr"] is None for x in g.inst) and \
+                            self.changes[i][-1]["t"] + g.ms / 1000.0 > rec["t"] + EPS:
+                        self.obs["muted_change_ends_pending_hold"] += 1
+                        break
             self.mstate[i] = new
             self.changes[i].append(rec)
             self.changed_once[i] = True
             self.obs["real_changes"] += 1
         else:
             self.obs["duplicate_reports"] += 1
-        self.log("REPORT#%d s%d v=%d %s -> state %d %s (%s)" % (rid, i, v, "logical" if lg else "raw", new,
-                                                                "CHANGE" if real else "duplicate", where))
+        self.log("REPORT#%d s%d v=%d %s -> state %d %s%s (%s)" % (rid, i, v, "logical" if lg else "raw", new,
+                                                                  "CHANGE" if real else "duplicate",
+                                                                  " while MUTED" if rec["muted"] else "", where))
         self.stack.append(rid)
         try:
             via = op.get("via")
@@ -861,14 +975,15 @@ class _Rt:
         out = []
         cur = None
         if self.init_state[i] == st:
-            cur = {"c": FAR, "qs": -1, "e": None, "qe": None, "initial": True}
+            cur = {"c": FAR, "qs": -1, "e": None, "qe": None, "initial": True, "muted": False}
         for ch in self.changes[i]:
             if cur is not None:
                 cur["e"], cur["qe"] = ch["t"], ch["qs"]
                 out.append(cur)
                 cur = None
             if ch["new"] == st:
-                cur = {"c": ch["t"], "qs": ch["qs"], "e": None, "qe": None, "initial": False}
+                cur = {"c": ch["t"], "qs": ch["qs"], "e": None, "qe": None, "initial": False,
+                       "muted": ch["muted"]}
         if cur is not None:
             out.append(cur)
         return out
@@ -954,6 +1069,12 @@ class _Rt:
                         why.append("added_mid_interval")
                 if abs(d - self.t_end) <= EPS:
                     must = False
+                if E["muted"]:
+                    # the switch entered the state while muted: that change dispatches nothing (mute docstring) and
+                    # the statement is silent on hold handlers for it: 0 or 1.  Leaving the state, a removal or a
+                    # late add still forbid the fire.
+                    must = False
+                    why.append("state_entered_while_muted")
                 b = buckets.setdefault(_bk(d), {"lo": 0, "hi": 0, "n": 0, "pairs": [], "d": d})
                 if never:
                     self.obs["timed_must_not_fire"] += count
@@ -1055,6 +1176,13 @@ class _Rt:
                                   {"handler": label, "switch": "s%d" % g.sw, "state": g.st, "report": rep, "calls": n,
                                    "history": self.history(g.sw, g.cb)})
                 continue
+            if rep["muted"]:
+                self.cl["muted_silent"] += 1
+                if n:
+                    self.add_viol("muted_silent", "C03:change_of_muted_switch_invokes_handler",
+                                  {"handler": label, "switch": "s%d" % g.sw, "state": g.st, "report": rep, "calls": n,
+                                   "history": self.history(g.sw, g.cb, upto=rep["t"])})
+                continue
             if rep["new"] != g.st:
                 if n:
                     self.add_viol("untimed_once", "C03:handler_invoked_for_other_state",
@@ -1090,7 +1218,7 @@ class _Rt:
             exp = {}
             for i, st in src:
                 for ch in self.changes[i]:
-                    if ch["new"] == st:
+                    if ch["new"] == st and not ch["muted"]:      # a muted change dispatches nothing, also no events
                         exp[_bk(ch["t"])] = exp.get(_bk(ch["t"]), 0) + 1
             got = {}
             for q, t in seen:
@@ -1221,6 +1349,8 @@ def _shape(case):
         k = op.get("k")
         if k == "rep":
             out.append("L" if op["lg"] else "R")
+        elif k in ("mute", "unmute"):
+            out.append("M" if k == "mute" else "m")
         elif k == "add":
             out.append("A%d%s%s%s" % (op["ms"], "!" if op.get("act") else "",
                                       "w" if op.get("ri") or op.get("kw") else "", "=" if op.get("twin_of") is not None else ""))
